@@ -43,6 +43,7 @@ SIG_SENS = 'c11-zero-sensitivity-nan'
 SIG_SPEC = 'c11-spectrum-shape-subset'
 SIG_ABS = 'c11-absolute-threshold'
 SIG_CANCEL = 'c11-near-threshold-cancellation'
+SIG_NTB = 'c11-nontraceless-basis-sensitivity'
 
 
 # ------------------------------------------------------------------------------------------ inputs
@@ -129,7 +130,7 @@ def make_case(r, thorough, force=None):
         c_ids.append(str(r.choice(['a_drift', 'z_drift'])))       # sorted before / after the controls
     lam = 1.0
     if amp == 'scaled':
-        lam = float(r.choice([1e-6, 1e-3, 1e3, 1e6, 1e8]))
+        lam = f.get('lam') or float(r.choice([1e-6, 1e-3, 1e3, 1e6, 1e8]))
         coeffs = coeffs / lam
         dt = dt * lam
     n_ids = ['n%d' % j for j in range(nn)]
@@ -154,7 +155,7 @@ def make_case(r, thorough, force=None):
             nid = list(r.permutation(nid))
     n_sel = len(nid) if nid is not None else nn
     c_sel = len(cid) if cid is not None else len(p.c_opers)
-    ncd_full = r.standard_normal((nn, len(p.c_opers), G)) / lam if use_ncd else None
+    ncd_full = r.standard_normal((nn, len(p.c_opers), G)) * lam if use_ncd else None   # ds/du ~ 1/amplitude
     om = r.uniform(-4, 4, 4)
     om[0] = 0.0
     p.diagonalize()
@@ -255,6 +256,7 @@ def input_classes(res):
     tr = lambda A: abs(np.trace(A)) > 1e-12 * max(1.0, np.abs(A).max())
     d2 = d == 2 and (any(tr(p.c_opers[h]) for h in c_idx) or any(tr(p.n_opers[a]) for a in n_idx))
     zs = res['ncd'] is not None and bool((p.n_coeffs[n_idx] == 0).any())
+    ntb = res['ncd'] is not None and not p.basis.istraceless and any(tr(p.n_opers[a]) for a in n_idx)
     absthr = cancel = False
     for g in range(G):
         dE = np.subtract.outer(ev[g], ev[g])
@@ -265,7 +267,8 @@ def input_classes(res):
                 absthr = True
             if ((ax >= THR) & (ax * p.dt[g] < 1e-4)).any():
                 cancel = True
-    return dict(degenerate=deg, d2_nontraceless=d2, zero_sens=zs, abs_threshold=absthr, cancellation=cancel)
+    return dict(degenerate=deg, d2_nontraceless=d2, zero_sens=zs, abs_threshold=absthr, cancellation=cancel,
+                nontraceless_basis_sens=ntb)
 
 
 def predicates(inp, res=None, full=True):
@@ -314,6 +317,8 @@ def predicates(inp, res=None, full=True):
         ifloor = floor * np.abs(S2).max() * (om.max() - om.min()) / (2 * np.pi * p.d)
         ierr, iscale = fd_error(res['ID'], (IFD, IFDb))
         if ierr > FD_TOL * iscale + ifloor:
+            if sig == 'c11-fd-mismatch' and cls['nontraceless_basis_sens'] and not any(b[0] == 'ff-derivative' for b in bad):
+                sig = SIG_NTB      # the filter function derivative is right, infidelity() uses the trace-tensor form
             bad.append(('infidelity-derivative', sig, 'infidelity derivative differs from finite differences of '
                         'infidelity(): max abs err %.3g, largest entry %.3g' % (ierr, iscale)))
     # identifier selection = slice of the full derivative
@@ -483,12 +488,13 @@ FORCED = [dict(d=2, G=3, ctl='nontraceless', noise='traceless', amp='generic', n
           dict(d=3, G=3, amp='generic', ncd=True, sens='zero', nn=2),
           dict(d=3, G=2, amp='generic', ncd=True, sens='generic', nn=2, nc=2),
           dict(d=3, G=2, amp='generic', seln='subset', nn=3, spec='2d', ncd=False),
-          dict(d=3, G=2, amp='scaled', ncd=False),
+          dict(d=3, G=2, amp='scaled', lam=1e8, ctl='traceless', noise='traceless', ncd=False),
           dict(d=4, G=4, amp='zero-amp'),
           dict(d=2, G=3, ctl='traceless', noise='traceless', amp='zero-amp', drift=True, selc='perm', nc=2),
           dict(d=3, G=3, amp='tiny', drift=True),
           dict(d=3, G=3, amp='small', ctl='traceless', noise='traceless', ncd=False),
-          dict(d=3, G=2, amp='generic', ctl='traceless', noise='traceless', ncd=False, res_delta=3e-7)]
+          dict(d=3, G=2, amp='generic', ctl='traceless', noise='traceless', ncd=False, res_delta=3e-7),
+          dict(d=3, G=2, amp='generic', ctl='traceless', noise='nontraceless', basis='nontraceless', ncd=True, sens='generic')]
 
 
 def run(ctx):
@@ -604,33 +610,45 @@ def eval_retry(ctx, names, mk, per_file, per_file_big=1):
 
 
 def replay(ctx, rep):
+    """re-run the predicate / comparison that produced the replay file (same signature) on its input"""
     inp = rep.get('input')
+    sig = rep.get('signature')
     if not inp:
         return False, 'replay names a broken obligation: %s' % rep.get('observable')
     if 'E' in inp:
         E, ev, dt = arr(inp['E']), arr(inp['eigvals']), float(inp['dt'])
-        txt = coq_di_case('g0', E, ev, dt, True)
-        if txt is None:
+        if not np.isfinite(di_run(E, ev, dt)).all():
             return False, 'replay reproduces: _derivative_integral returns NaN/inf'
-        x = ctx.eval_tallies(HDR, [('g0', txt)], per_file=1)[0]
-        if x is not None and x[2] > 0 and np.isfinite(di_xmin(E, ev, dt)):
-            return False, ('replay reproduces: _derivative_integral is inaccurate just outside its masks (smallest '
-                           'unmasked |x| = %.3g): %s' % (di_xmin(E, ev, dt), x))
+        near = np.isfinite(di_xmin(E, ev, dt))
+        x = ctx.eval_tallies(HDR, [('g0', coq_di_case('g0', E, ev, dt, True, loose=near))], per_file=1)[0]
         if x is None or x[1] > 0 or x[2] > 0:
             return False, 'replay reproduces: _derivative_integral differs from the model: %s' % (x,)
+        if near and sig == SIG_CANCEL:
+            x = ctx.eval_tallies(HDR, [('g1', coq_di_case('g1', E, ev, dt, True))], per_file=1)[0]
+            if x is None or x[1] > 0 or x[2] > 0:
+                return False, ('replay reproduces: _derivative_integral is inaccurate just outside its masks (smallest '
+                               'unmasked |x| = %.3g): %s' % (di_xmin(E, ev, dt), x))
         return True, 'replay: _derivative_integral agrees with the model on this input'
     if 'definition' in inp:
-        x = ctx.eval_tallies(HDR, [('b0', inp['definition'].replace('Definition ', 'Definition b0_', 1))], per_file=1)
-        return False, 'replay of a bookkeeping disagreement: %s' % (x,)
-    bad, cls = predicates(inp)
-    if bad:
-        return False, 'replay reproduces: %s' % [(o, s, d[:120]) for o, s, d in bad]
+        import re as _re
+        nm = _re.match(r'Definition (\w+)', inp['definition']).group(1)
+        x = ctx.eval_tallies(HDR, [(nm, inp['definition'])], per_file=1)[0]
+        if x is None or x[1] > 0 or x[2] > 0:
+            return False, 'replay reproduces a bookkeeping disagreement: %s' % (x,)
+        return True, 'replay: bookkeeping model agrees with the implementation'
     res = evaluate(inp)
-    if small_enough(inp, res):
+    bad, cls = predicates(inp, res)
+    same = [b for b in bad if b[1] == sig] if sig else bad
+    if same:
+        return False, 'replay reproduces: %s' % [(o, s, d[:160]) for o, s, d in same]
+    if rep.get('kind') == 'corr' and small_enough(inp, res):
         x = ctx.eval_tallies(HDR, [('f0', coq_full_case('f0', inp, res, True))], per_file=1, timeout=2400)[0]
         if x is None or x[1] > 0 or x[2] > 0:
-            return False, 'replay reproduces: implementation outside the model enclosure: %s' % (x,)
-    return True, 'replay: property-level predicates hold on this input'
+            if not (cls['cancellation'] and sig != SIG_CANCEL and x is not None and x[1] == 0):
+                return False, 'replay reproduces: implementation outside the model enclosure: %s' % (x,)
+    other = [b[1] for b in bad]
+    return True, 'replay: the recorded failure (%s) does not occur on this input%s' % (
+        sig, '; other (known) classes present: %s' % other if other else '')
 
 
 def search(ctx, broken):
